@@ -101,7 +101,7 @@ prop("C14", ["CAS-1~^(?!.*:(name-source|name-filter|source)$).*", "CAS-4", "CAS-
      "established by pairing every byte written with a checksum term, trailer 55; data payload byte i = data[i], continuation at the number of bytes written; file order leader, name-file, leader, "
      "data, EOF; only appends.",
      "nothing input-dependent: this property is decided completely under the stated assumptions.", ["data bytes are 0..255 and name characters are single-byte"])
-prop("C15", ["DSK-6", "DSK-7", "DSK-12", "DSK-13", "DSK-4", "VF-1", "DET-2", "DET-3", "CLI-3", "VF-5", "DSK-8", "VF-2", "CLI-4~:(save|end):", "DSK-2~write_dir_entry:(nul|name-characters)"],
+prop("C15", ["DSK-6", "DSK-7", "DSK-12", "DSK-13", "DSK-4", "VF-1", "DET-2", "DET-3", "CLI-3", "VF-5", "DSK-8~(:allocation|:fat|:length|:directory|:data|:sequence|allocation-count|size-guard|length-kind|\\[empty)", "VF-2", "CLI-4~:(save|end):", "DSK-2~write_dir_entry:(nul|name-characters)"],
      "the fill order offers all 68 granules once; allocation only of free granules, exhaustion raises; directory scan covers at least 68 slots and a full directory raises; granule count = "
      "floor(stream/2304)+1 for every stream length; the image is rebuilt in memory before the host file is touched.",
      "exact granule counts for concrete sequences of additions.")
